@@ -169,6 +169,8 @@ func genC03(t *rapid.T) c03Case {
 				return c03Op{K: "set", N: rapid.SampledFrom(noisyLimits).Draw(t, "nNoisy")}
 			}
 			return c03Op{K: "set", N: rapid.OneOf(rapid.IntRange(-3, 80), rapid.IntRange(1, 6)).Draw(t, "n")}
+		case k < 18 && rapid.IntRange(0, 1).Draw(t, "rebuild") == 0:
+			return c03Op{K: "rebuild"}
 		case k < 18:
 			p := genPart(rapid.SampledFrom(addNames)).Draw(t, "part")
 			if rapid.IntRange(0, 2).Draw(t, "otherObjName") == 0 {
@@ -321,9 +323,11 @@ func runC03(_ *testing.T, c c03Case) (out kit.Outcome) {
 		return nil
 	}
 	type tok struct {
-		bin *c03Bin
-		t   core.StrategyToken
+		bin   *c03Bin
+		t     core.StrategyToken
+		epoch int // which strategy instance granted it (a "rebuild" makes a new one over the same partition objects)
 	}
+	epoch := 0
 	var held []tok
 	var gone []*c03Bin // removed partition objects (may be re-attached)
 	var sawBorrow, sawGuaranteed, sawRefusal, sawUnknown, sawSetHeld, sawDyn bool
@@ -434,7 +438,7 @@ func runC03(_ *testing.T, c c03Case) (out kit.Outcome) {
 			if ok {
 				busy++
 				bin.busy++
-				held = append(held, tok{bin, tk})
+				held = append(held, tok{bin, tk, epoch})
 				if tk.InFlightCount() != busy {
 					return kit.Viol(c.Kind+":token-inflight", "op %d: token reports in-flight %d, total is %d", i, tk.InFlightCount(), busy)
 				}
@@ -453,7 +457,43 @@ func runC03(_ *testing.T, c c03Case) (out kit.Outcome) {
 			held = append(held[:k], held[k+1:]...)
 			h.t.Release()
 			h.bin.busy--
-			busy--
+			if h.epoch == epoch {
+				busy-- // (a token granted by an earlier strategy instance gives its unit back to that instance's total)
+			}
+		case "rebuild":
+			// a new strategy instance over the partition objects currently registered (a limiter rebuilt on a
+			// configuration reload while requests are still out): its total starts at zero, the objects keep the counts
+			// of the tokens still charged to them, and every token goes back where it came from
+			sawDyn = true
+			if c.Kind == "lookup" {
+				m := map[string]*strategy.LookupPartition{}
+				for _, b := range bins {
+					m[b.part.Name] = b.lookup
+				}
+				if len(m) == 0 {
+					continue
+				}
+				var lf func(context.Context) string
+				if c.LookupFn == 1 {
+					lf = matchers.DefaultStringLookupFunc
+				}
+				ls, err = strategy.NewLookupPartitionStrategyWithMetricRegistry(m, lf, int32(total), reg)
+			} else {
+				var l []*strategy.PredicatePartition
+				for _, b := range bins {
+					l = append(l, b.pred)
+				}
+				if len(l) == 0 {
+					continue
+				}
+				ps, err = strategy.NewPredicatePartitionStrategyWithMetricRegistry(l, int32(total), reg)
+			}
+			if err != nil {
+				return kit.Viol(c.Kind+":rebuild", "op %d: a second strategy over the registered partition objects was rejected: %v", i, err)
+			}
+			epoch++
+			busy = 0
+			unk = &c03Bin{part: c03Part{Name: "<unknown>", Frac: 0}}
 		case "set":
 			if len(held) > 0 {
 				sawSetHeld = true
